@@ -15,6 +15,8 @@ def classify(ev):
 
 def run(ctx):
     relcommon.exhaustive(ctx, cursor=True)
+    if relcommon.replayed(ctx, classify, ('"e":"Reset"', '"e":"Open"')):
+        return
     drv = ctx.go_build("relational")
     trace = ctx.work + "/c23.ndjson"
     nscen = 250 if ctx.thorough() else 40
